@@ -353,7 +353,11 @@ class _FakeSelector:
         if timeout is None:
             raise SimDeadlock("event loop idle forever")
         if timeout > 0:
-            VT.now += timeout
+            sched = self.loop._scheduled
+            if sched and sched[0]._when > VT.now:
+                VT.now = sched[0]._when  # land exactly on the next timer (no float drift)
+            else:
+                VT.now += timeout
         return []
 
     def close(self):
